@@ -516,8 +516,8 @@ m("c12-total-memo", "C12", "x/ucdao/keeper/total_balance.go",
   "var totalsMemo = map[string]sdk.Coin{}\n\nfunc (k BaseKeeper) setTotalBalanceOfCoin(ctx sdk.Context, coin sdk.Coin) {\n\ttotalsMemo[coin.Denom] = coin\n",
   "RM", "decoded total memoised in a package-level map: survives a reverted message")
 m("c02w-query-claims-rewards", "C02", "precompiles/distribution/query.go",
-  "\tres, err := querier.DelegationTotalRewards(ctx, req)\n\tif err != nil {\n\t\treturn nil, err\n\t}\n",
-  "\tres, err := querier.DelegationTotalRewards(ctx, req)\n\tif err != nil {\n\t\treturn nil, err\n\t}\n\tif len(res.Total) > 0 {\n\t\t_ = anteutils.ClaimSufficientStakingRewards(ctx, p.stakingKeeper, p.distributionKeeper, sdk.MustAccAddressFromBech32(req.DelegatorAddress), sdk.NewCoin(\"aISLM\", sdk.NewInt(1)))\n\t}\n",
+  "\tres, err := querier.DelegationTotalRewards(queryCtx, req)\n\tif err != nil {\n\t\treturn nil, err\n\t}\n",
+  "\tres, err := querier.DelegationTotalRewards(queryCtx, req)\n\tif err != nil {\n\t\treturn nil, err\n\t}\n\tif len(res.Total) > 0 {\n\t\t_ = anteutils.ClaimSufficientStakingRewards(ctx, p.stakingKeeper, p.distributionKeeper, sdk.MustAccAddressFromBech32(req.DelegatorAddress), sdk.NewCoin(\"aISLM\", sdk.NewInt(1)))\n\t}\n",
   "W1@", "a view function auto-claims rewards through a helper outside the keeper packages: invisible to the name-based effect filter, found by the whole-program rule",
   extra=[("import (\n", "import (\n\tanteutils \"github.com/haqq-network/haqq/app/ante/utils\"\n")])
 M[-1]["tier"] = "whole"
@@ -815,6 +815,33 @@ m("c18-effective-fee-zero-basefee", "C18", "x/evm/types/msg.go",
 m("c19-display-denom-alias", "C19", "x/erc20/keeper/proposals.go",
   "\tk.SetDenomMap(ctx, pair.Denom, pair.GetID())\n\tk.SetERC20Map(ctx, common.HexToAddress(pair.Erc20Address), pair.GetID())\n\n\treturn &pair, nil\n}\n\n// RegisterERC20 creates", "\tk.SetDenomMap(ctx, pair.Denom, pair.GetID())\n\tif coinMetadata.Display != \"\" {\n\t\tk.SetDenomMap(ctx, coinMetadata.Display, pair.GetID())\n\t}\n\tk.SetERC20Map(ctx, common.HexToAddress(pair.Erc20Address), pair.GetID())\n\n\treturn &pair, nil\n}\n\n// RegisterERC20 creates",
   "SetDenomMap-key", "an alias entry that the genesis import does not rebuild")
+
+# ---------------- rules written for the defect hunters' findings (each mutant re-introduces the repaired defect) ----------------
+m("c04-allocation-drops-allowlist", "C04", "precompiles/ics20/types.go",
+  "\t\t\tSpendLimit:    spendLimit,\n\t\t\tAllowList:     a.AllowList,\n", "\t\t\tSpendLimit:    spendLimit,\n",
+  "all-fields", "the allow list of an approved allocation is dropped")
+m("c09-funder-stored-raw", "C09", "x/vesting/keeper/msg_server.go",
+  "\tva.FunderAddress = newFunder.String()\n", "\tva.FunderAddress = msg.NewFunderAddress\n",
+  "FunderAddress-canonical", "the funder is recorded as spelled in the message")
+m("c16-creation-height-unguarded", "C16", "precompiles/staking/types.go",
+  "\tif !ok || !creationHeight.IsInt64() {\n", "\tif !ok {\n",
+  "Int64-narrowing-guarded", "the creation height is narrowed modulo 2^64")
+m("c08-selfdestruct-removes-vesting-account", "C08", "x/evm/keeper/statedb.go",
+  "\tif _, isVesting := acct.(vestexported.VestingAccount); isVesting {\n\t\treturn errorsmod.Wrapf(types.ErrInvalidAccount, \"vesting account %s cannot be destructed\", addr)\n\t}\n", "\t_ = vestexported.VestingAccount(nil)\n",
+  "spares-vesting-accounts", "SELFDESTRUCT deletes a vesting account and its lock-up")
+for prop in ("C16", "C07"):
+    m("c%s-gas-meter-without-precharge" % prop[1:], prop, "precompiles/common/precompile.go",
+      "sdk.NewGasMeter(initialGas + contract.Gas)", "sdk.NewGasMeter(contract.Gas)",
+      "gas-meter-limit-covers-precharge", "later messages of a multi-message tx pay for earlier ones inside precompile calls")
+m("c05-staking-run-without-branch", "C05", "precompiles/staking/staking.go",
+  "\tctx, writeCache := ctx.CacheContext()\n", "\twriteCache := func() {}\n",
+  "handlers-run-on-a-branch", "a failed staking precompile call leaves a torn message")
+m("c12-ratio-hands-zero-coins", "C12", "x/ucdao/keeper/msg_server.go",
+  "\t\tif !amt.IsPositive() {\n\t\t\tcontinue\n\t\t}\n", "",
+  "zero-shares-left-out", "a dust denomination blocks the by-ratio transfer")
+m("c15-burn-from-blocked-address", "C15", "x/evm/keeper/statedb.go",
+  "\t\tif k.bankKeeper.BlockedAddr(cosmosAddr) {\n\t\t\treturn errorsmod.Wrapf(errortypes.ErrUnauthorized, \"cannot burn from blocked address %s\", cosmosAddr)\n\t\t}\n", "\t\t_ = errortypes.ErrUnauthorized\n",
+  "burn-branch-refuses-blocked", "a stale pool balance is written back and the difference burned")
 
 json.dump(M, open('/verif/mutants.json', 'w'), indent=1)
 print(len(M), "mutants written")
